@@ -261,9 +261,9 @@ func VerifC03HeaderDeep() {
 }
 
 func VerifC03HeaderDeepF(f int) { verifC03Header(c03HeaderDeepFocus(f)) }
-func VerifC03HeaderD0()        { VerifC03HeaderDeepF(0) }
-func VerifC03HeaderD1()        { VerifC03HeaderDeepF(1) }
-func VerifC03HeaderD2()        { VerifC03HeaderDeepF(2) }
-func VerifC03HeaderD3()        { VerifC03HeaderDeepF(3) }
-func VerifC03HeaderD4()        { VerifC03HeaderDeepF(4) }
-func VerifC03HeaderD5()        { VerifC03HeaderDeepF(5) }
+func VerifC03HeaderD0()         { VerifC03HeaderDeepF(0) }
+func VerifC03HeaderD1()         { VerifC03HeaderDeepF(1) }
+func VerifC03HeaderD2()         { VerifC03HeaderDeepF(2) }
+func VerifC03HeaderD3()         { VerifC03HeaderDeepF(3) }
+func VerifC03HeaderD4()         { VerifC03HeaderDeepF(4) }
+func VerifC03HeaderD5()         { VerifC03HeaderDeepF(5) }
